@@ -52,7 +52,7 @@ def generate(ctx):
     ctx.gen("C14", gen_text())
 
 
-def single_case(rng, grids=None, gravity=False, mesh=None, length=1.0, regions=False, n_ring=None):
+def single_case(rng, grids=None, gravity=False, mesh=None, length=1.0, regions=False, n_ring=None, models=None):
     case = gi.random_case(rng, n_core_rings=1, n_types=1, gap_model='none', length=length, const_props=True,
                           flow_range=(2.0, 8.0), type_kw=dict(n_ring=n_ring or rng.choice([3, 4, 5]), n_duct=1))
     t = case['types']['t0']
@@ -63,7 +63,7 @@ def single_case(rng, grids=None, gravity=False, mesh=None, length=1.0, regions=F
     if mesh:
         case['setup']['axial_mesh_size'] = mesh
     if regions:
-        gi.add_axial_regions(rng, case, 't0', models=('simple',))
+        gi.add_axial_regions(rng, case, 't0', models=models or ('simple', '6node'))
         gi.random_power(rng, case)
     return case
 
@@ -98,10 +98,11 @@ def oracle(ctx, rng, n):
             mesh = rng.choice([None, 0.003, 0.0071])
         if len(grids) > 1 and rng.random() < 0.5:
             rng.shuffle(grids)      # the input does not have to list the grids bottom-up
-        gravity = rng.random() < 0.5
-        regions = rng.random() < 0.3
+        forced = ci % 4 == 0          # every fourth case: six-node unrodded regions with the gravity head switched on
+        gravity = rng.random() < 0.5 or forced
+        regions = rng.random() < 0.3 or forced
         seed_case = rng.getrandbits(32)
-        case = single_case(random.Random(seed_case), grids or None, gravity, mesh, L, regions)
+        case = single_case(random.Random(seed_case), grids or None, gravity, mesh, L, regions, models=('6node',) if forced else None)
         if regions and grids:
             # keep grids inside the pin bundle
             lo = max([reg['z_hi'] for reg in case['types']['t0']['AxialRegion'] if reg['name'] == 'lower'] + [0.0])
@@ -124,6 +125,13 @@ def oracle(ctx, rng, n):
                           % (total, sum(parts.values()), sum(per_region)), case=case, info=info)
         if min(parts.values()) < 0:
             ctx.violation("c14-negative", "a pressure-drop component is negative: %s" % parts, case=case)
+        # gravity head of the whole assembly (constant density): rho g L whatever regions it is made of
+        if gravity:
+            rho_g = a.region[0].coolant.density * 9.80665 * L
+            if abs(parts['gravity'] - rho_g) > 1e-9 * rho_g:
+                ctx.violation("c14-gravity-closed-form", "gravity head %.9g Pa of the assembly differs from rho g L = %.9g Pa (regions: %s)"
+                              % (parts['gravity'], rho_g, [type(x).__name__ + ":" + str(getattr(x, 'model', '')) for x in a.region]),
+                              case=case, info=info)
         # closed forms (constant properties): rodded region only when no other regions
         rr = a.rodded if hasattr(a, 'rodded') else None
         if not regions:
@@ -135,8 +143,6 @@ def oracle(ctx, rng, n):
             if abs(parts['friction'] - cf) > 1e-9 * cf:
                 ctx.violation("c14-friction-closed-form", "friction loss %.9g differs from f L rho v^2/(2 De) = %.9g"
                               % (parts['friction'], cf), case=case, info=info)
-            if gravity and abs(parts['gravity'] - rho * 9.80665 * L) > 1e-9 * rho * 9.80665 * L:
-                ctx.violation("c14-gravity-closed-form", "gravity head %.9g differs from rho g L" % parts['gravity'], case=case)
             if grids:
                 kloss = reg.coolant_int_params['grid_loss_coeff'] * rho * v ** 2 / 2
                 counted = parts['spacer_grid'] / kloss
